@@ -906,6 +906,39 @@ func Run(r *corr.Run) {
 			w.one(t, append(hdr, 0x00, 'a'), "snappy-declen")
 		}
 	}
+	// head sync: hostile narrow / reversed / wrapping ranges, limits and element flags (the diff has df=4, thr=2)
+	for _, t := range w.targets {
+		if t.name != "headsync.range-request" {
+			continue
+		}
+		maxU := uint64(math.MaxUint64)
+		type rg struct {
+			from, to uint64
+			limit    uint32
+			els      bool
+		}
+		var cases [][]rg
+		for _, base := range []uint64{0, 1, 5, 1 << 32, 1 << 63, maxU - 3, maxU - 1, maxU} {
+			for _, wdt := range []uint64{0, 1, 2, 3, 4, 5} { // narrower than, equal to and just above df
+				for _, lim := range []uint32{0, 1, math.MaxUint32} {
+					cases = append(cases, []rg{{base, base + wdt, lim, false}, {base, base + wdt, lim, true}})
+				}
+			}
+			cases = append(cases, []rg{{base, base - 1, 0, true}}, []rg{{base + 1, base, math.MaxUint32, false}}) // from > to
+		}
+		var many []rg
+		for i := 0; i < 64; i++ { // the element flag on huge ranges, many times in one request
+			many = append(many, rg{0, maxU, uint32(i), true})
+		}
+		cases = append(cases, many, []rg{{maxU, 0, 0, true}, {0, maxU, 0, false}, {1 << 63, (1 << 63) - 1, 7, true}})
+		for _, c := range cases {
+			req := &spacesyncproto.HeadSyncRequest{SpaceId: "space1"}
+			for _, x := range c {
+				req.Ranges = append(req.Ranges, &spacesyncproto.HeadSyncRange{From: x.from, To: x.to, Limit: x.limit, Elements: x.els})
+			}
+			w.one(t, must(req.MarshalVT()), "headsync-guard")
+		}
+	}
 	// topics: guard-directed
 	for _, t := range w.targets {
 		if t.name != "pubsub.topic" {
